@@ -202,6 +202,120 @@ def random_history(rng):
     return case
 
 
+def _sample_messages(rng, n):
+    import mido
+    from mido.messages.specs import SPEC_BY_TYPE
+    from mido.midifiles.meta import _META_SPEC_BY_TYPE
+    msgs = []
+    for name in sorted(SPEC_BY_TYPE):
+        for _ in range(n):
+            kw = {}
+            for a in SPEC_BY_TYPE[name]['value_names']:
+                if a == 'data':
+                    kw[a] = [rng.randrange(128) for _ in range(rng.randrange(4))]
+                elif a == 'pitch':
+                    kw[a] = rng.randint(-8192, 8191)
+                elif a == 'pos':
+                    kw[a] = rng.randrange(16384)
+                elif a in ('channel', 'frame_value'):
+                    kw[a] = rng.randrange(16)
+                elif a == 'frame_type':
+                    kw[a] = rng.randrange(8)
+                else:
+                    kw[a] = rng.randrange(128)
+            msgs.append(mido.Message(name, time=rng.choice([0, 1, 2.5, 480]), **kw))
+    for name in sorted(_META_SPEC_BY_TYPE):
+        msgs.append(mido.MetaMessage(name, time=rng.choice([0, 7, 1.25])))
+    msgs += [mido.MetaMessage('set_tempo', tempo=rng.randrange(1 << 24)), mido.MetaMessage('text', text='abc'),
+             mido.MetaMessage('sequencer_specific', data=[1, 2]), mido.UnknownMetaMessage(0x60, data=[1, 2], time=1),
+             mido.UnknownMetaMessage(0x7e, time=0)]
+    return msgs
+
+
+def _fresh(m, ov):
+    import mido
+    d = dict(vars(m))
+    d.update(ov)
+    if isinstance(m, mido.UnknownMetaMessage):
+        d.pop('type', None)
+        return type(m)(**d)
+    t = d.pop('type')
+    return type(m)(t, **d)
+
+
+def _outcome(f):
+    try:
+        return ('ok', f())
+    except (ValueError, TypeError) as e:
+        return ('err', type(e).__name__)
+    except Exception as e:  # noqa: BLE001
+        return ('other', repr(e))
+
+
+def copy_vs_constructor(out, rng):
+    """copy(**overrides), valid AND invalid override sets: the outcome is that of constructing a fresh message of the same class
+    from the original's attributes updated with the overrides (equal message of the same class, or the same kind of exception)."""
+    from mido.frozen import freeze_message
+    bad = ['x', None, 1.5, 2.0, 1j, [1], (1,), -1, 128, 256, 16384, 1 << 40, True, b'ab', '', [300], (-1,)]
+    good = [0, 1, 5, 100, 'C', 'abc', [1, 2], (3,), 2.5, 24]
+    n = dist_ok = dist_err = 0
+    for m in _sample_messages(rng, 1 if out.tier == 'quick' else 4):
+        for fm in (m, freeze_message(m)):
+            names = [k for k in vars(m) if k != 'type'] + ['bogus', 'note']
+            sets = [{a: v} for a in names for v in bad + good]
+            for _ in range(20):
+                sets.append({a: rng.choice(bad + good + good) for a in rng.sample(names, min(len(names), rng.randrange(2, 4)))})
+            for ov in sets:
+                n += 1
+                c = _outcome(lambda: fm.copy(**ov))
+                f = _outcome(lambda: _fresh(fm, ov))
+                same = c[0] == f[0] and c[0] != 'other' and (c[0] != 'ok' or (c[1] == f[1] and type(c[1]) is type(f[1]) and c[1] is not fm))
+                dist_ok += c[0] == 'ok'
+                dist_err += c[0] == 'err'
+                if not same:
+                    out.failures.append(('copy-vs-constructor', '%r.copy(**%r) gave %r but constructing it afresh gives %r' % (fm, ov, c, f),
+                                         {'component': 'copy-vs-constructor', 'message': repr(fm), 'overrides': repr(ov)}))
+    out.evaluations += n
+    out.components['copy-vs-constructor (valid and invalid override sets, implementation against the property statement)'] = {
+        'cases': n, 'copies_made': dist_ok, 'rejected': dist_err}
+
+
+def hash_routes(out, rng):
+    """equal frozen messages hash equal and find each other as dictionary keys however they were built: constructor (attributes in any
+    keyword order), copy with overrides, from_bytes / Parser, from_str, from_dict, thaw+freeze."""
+    import mido
+    from mido.frozen import freeze_message, thaw_message
+    n = 0
+    for m in _sample_messages(rng, 2 if out.tier == 'quick' else 10):
+        routes = [('copy', lambda: m.copy()), ('thaw-freeze', lambda: thaw_message(freeze_message(m)))]
+        if type(m) is mido.Message:
+            routes += [('from_bytes', lambda: mido.Message.from_bytes(m.bytes(), time=m.time)),
+                       ('parser', lambda: [x.copy(time=m.time) for x in mido.Parser(m.bytes())][0]),
+                       ('from_str', lambda: mido.Message.from_str(str(m))),
+                       ('from_dict', lambda: mido.Message.from_dict(m.dict())),
+                       ('reversed-kwargs', lambda: mido.Message(m.type, **dict(reversed([(k, v) for k, v in vars(m).items() if k != 'type'])))),
+                       ('copy-override', lambda: m.copy(**{k: v for k, v in list(vars(m).items())[-1:] if k != 'type'}))]
+        elif type(m) is mido.MetaMessage:
+            routes += [('from_bytes', lambda: mido.MetaMessage.from_bytes(m.bytes()).copy(time=m.time)),
+                       ('reversed-kwargs', lambda: mido.MetaMessage(m.type, **dict(reversed([(k, v) for k, v in vars(m).items() if k != 'type'])))),
+                       ('copy-override', lambda: m.copy(time=m.time))]
+        f = freeze_message(m)
+        for tag, mk in routes:
+            n += 1
+            try:
+                twin = mk()
+                if not (twin == m):
+                    continue      # (e.g. float time through str: other properties)
+                g = freeze_message(twin)
+                if hash(g) != hash(f) or {f: 1}.get(g) != 1 or g not in {f}:
+                    out.failures.append(('hash', 'equal frozen messages hash differently: %r built directly and via %s' % (m, tag),
+                                         {'component': 'hash-routes', 'message': repr(m), 'route': tag}))
+            except Exception as e:  # noqa: BLE001
+                out.failures.append(('hash-raises', 'route %s for %r raised %r' % (tag, m, e), {'component': 'hash-routes', 'message': repr(m), 'route': tag}))
+    out.evaluations += n
+    out.components['hash-routes (equal messages built by different routes, implementation against the property statement)'] = {'cases': n}
+
+
 def run(out):
     rng = random.Random(out.seed)
     n = 2000 if out.tier == 'quick' else 20000
@@ -226,6 +340,8 @@ def run(out):
                 out.failures.append(('value-semantics', 'copy/freeze/thaw/hash of %r do not agree' % (m,), {'component': 'extra', 'message': repr(m)}))
         except Exception as e:  # noqa: BLE001
             out.failures.append(('hash-raises' if 'hash' in repr(e) or isinstance(e, TypeError) else 'raises', 'copy/freeze/thaw/hash of %r raised %r' % (m, e), {'component': 'extra', 'message': repr(m)}))
+    copy_vs_constructor(out, rng)
+    hash_routes(out, rng)
     a, b = mido.MetaMessage('sequencer_specific'), mido.MetaMessage('sequencer_specific')
     if vars(a)['data'] is vars(b)['data'] and isinstance(vars(a)['data'], list):
         out.failures.append(('shared-default', 'two sequencer_specific messages share one mutable default data list', {'component': 'extra'}))
